@@ -42,7 +42,9 @@ NAMES = ["f%d.txt", "f%d.bin", "f%d.html", "f%d.gif", "f%d", "f%d.unknownext", "
          "sp ace%d.txt", "q?&=%d.txt", "pct%%41%d.txt", b"\xae%d.txt", b"\xff\xfe%d.dat", "f%d.gz", "f%d.jpeg",
          "f%d.pdf", "f%d.css", "f%d.mp3", "#hash%d.txt", "plus+%d.txt", "semi;%d.txt",
          # names that begin like a URL scheme (a type guesser given the bare name takes `data:` for a data URL)
-         "data:chart%d.png", "DATA:v%d,final.png", "mailto:notes%d.txt", "http:%d.html"]
+         "data:chart%d.png", "DATA:v%d,final.png", "mailto:notes%d.txt", "http:%d.html",
+         # names that only end in the letters of a special name
+         "site%dgophermap", "old-%d-gophermap", "x%d.GOPHERMAP", "notes%d.Gophermap"]
 
 
 def expected_mime(name_str, cfg):
